@@ -43,6 +43,9 @@ impl<R: Read> ZipStreamReader<R> {
     pub fn visit<V: ZipStreamVisitor>(mut self, visitor: &mut V) -> ZipResult<()> {
         while let Some(mut file) = read_zipfile_from_stream(&mut self.0)? {
             visitor.visit_file(&mut file)?;
+            // Skip what the visitor left unread here rather than in `Drop`, which cannot report a
+            // read error: the next header would be looked for in the middle of this entry.
+            file.drain_stream()?;
         }
 
         // `read_zipfile_from_stream` returned `None` because it consumed the signature of the
